@@ -561,7 +561,7 @@ func TestVerifC01(t *testing.T) {
 		runOne(vL(vI(1), vLs(script), vL(), vL(vL(vI(0), vI(2), vU(0), vI(1), vU(0), vB(vC01Be4(65536))),
 			vL(vI(0), vI(320), vU(0x7fffffff), vI(8), vU(0xffffffff), big), vL(vI(0), vI(5), vU(0), vI(9), vU(1), vL(vI(1), vI(0))))))
 	}
-	n := k.N(400, 1000)
+	n := k.N(400, 700)
 	for i := 0; i < n; i++ {
 		runOne(vC01Gen(k.rnd, k.thorough()))
 	}
